@@ -171,6 +171,12 @@ class Env:
             if x < 0:
                 raise TraitError("negative")
             return x
+        if s[0] == "int":
+            return x
+        if s[0] == "range":
+            if not (int(s[1]) <= x <= int(s[2])):
+                raise TraitError("out of range")
+            return x
         if s[0] == "failat":
             if k == int(s[1]):
                 raise {"TraitError": TraitError, "ValueError": ValueError, "RuntimeError": RuntimeError,
@@ -197,7 +203,7 @@ class World:
     """The pool built from the REAL classes."""
 
     def __init__(self, classes, objects, validators, falsy=None):
-        from traits.api import HasTraits, Instance, DelegatesTo, PrototypedFrom, TraitType
+        from traits.api import HasTraits, Instance, DelegatesTo, PrototypedFrom, TraitType, Int, Range
         from traits.constants import ComparisonMode
         self.classes, self.env = classes, Env(validators)
         env = self.env
@@ -227,7 +233,15 @@ class World:
                 ns["__prefix__"] = c.own_pfx
             for a in c.own_attrs:
                 if a.kind == "T":
-                    ns[a.name] = VT(a.vid, a.dflt, a.cmp)
+                    # validator specs `int` / `range:lo:hi` make the target a REAL Int / Range trait (C fast
+                    # validators, no Python validate); every other spec a custom TraitType
+                    spec = env.specs[a.vid] if a.vid < len(env.specs) else ["id"]
+                    if spec[0] == "int":
+                        ns[a.name] = Int(a.dflt, comparison_mode=modes[a.cmp])
+                    elif spec[0] == "range":
+                        ns[a.name] = Range(int(spec[1]), int(spec[2]), value=a.dflt, comparison_mode=modes[a.cmp])
+                    else:
+                        ns[a.name] = VT(a.vid, a.dflt, a.cmp)
                 elif a.kind == "D":
                     ns[a.name] = DelegatesTo("d", prefix=a.raw)
                 else:
@@ -421,7 +435,8 @@ SHAPES = {
     "star-nopfx": ("-,x=D:*/-,x=T:0:3", "0,1"),
     "star-emptypfx": ("=,x=D:*,y=P:*/-,x=T:0:3,y=T:1:4", "0,0,1,1"),
     # the shortest wildcard prefix: one character and the asterisk (`len(prefix) > 1` in get_delegate_pattern)
-    "pre1": ("-,x=D:p*,y=P:p*/-,px=T:0:3,py=T:1:4,x=T:0:7", "0,0,1,1"),
+    # (on a class WITH __prefix__: a pattern that wrongly keeps its asterisk would pick the class prefix up)
+    "pre1": ("=q_,x=D:p*,y=P:p*/-,px=T:0:3,py=T:1:4,x=T:0:7,pq_x=T:1:5,pq_y=T:0:6", "0,0,1,1"),
 }
 MAIN_SHAPES = ["same-D", "same-P", "expl-D", "expl-P", "pre-D", "pre-P", "star-D", "star-P"]
 CHAIN_SHAPES = ["D-P-T", "P-D-T", "self-D", "star2-same", "star2-diff", "star2-diffP", "star2-deep", "pre-chain"]
@@ -432,7 +447,9 @@ CMP_VALUES = [1, 100, 101, 1, 100, 3, 104, 3, 4, 105, 102, 103, 102, 106, 107, 2
 SUB_SHAPES = ["star-sub", "star-sub2", "sub-styles", "redeclare", "redeclare2"]
 
 
-def random_validators(rng, nops):
+def random_validators(rng, nops, real=False):
+    if real and rng.random() < 0.3:
+        return [rng.choice(["int", "range:0:9", "range:0:9", "rejneg"]) for _ in range(2)]
     pool = ["id", "id", "mod7", "rejneg", "rejneg",
             "failat:%d:%s" % (rng.randint(0, max(0, nops - 1)),
                               rng.choice(["TraitError", "ValueError", "RuntimeError"]))]
@@ -480,9 +497,58 @@ def random_history(rng, shape, maxops=12, build_first=None):
             ops.append("rd %d %s" % (o, rng.choice(nm)))
         else:
             ops.append("st %d %s %d" % (o, rng.choice(["nope", "zz"]), rng.randint(0, 9)))
-    vals = random_validators(rng, len(ops))
+    vals = random_validators(rng, len(ops), real=shape not in CMP_SHAPES)
     if shape in CMP_SHAPES and rng.random() < 0.7:
         vals = ["id", "id"]
+    return "dg|%s|%s|%s|%s" % (classes, objects, ",".join(vals), ";".join(ops))
+
+
+P_SHAPES = ["same-P", "expl-P", "pre-P", "star-P", "P-D-T", "star2-diffP", "pre-chain", "star-sub2", "cmp-P", "pre1"]
+
+
+def rejected_history(rng, shape):
+    """'An assignment rejected by the target's validator, then a change on the prototype must still notify the
+    listeners of the deferring attribute': chain wired bottom-up, an assignment through a PrototypedFrom (or
+    any deferring) attribute that the validator at the end of the chain rejects (Int-like custom TraitType,
+    real Range, k-th-operation-fails), then assignments of every typed attribute of every other object, then a
+    short random tail."""
+    classes, objects = SHAPES[shape]
+    cls = parse_classes(classes)
+    objs = [int(x) for x in objects.split(",")]
+    n = len(objs)
+    ops = []
+    for i in reversed(range(n - 1)):
+        t = _next_obj(objs, i, rng, cls)
+        if t is not None and rng.random() < 0.95:
+            ops.append("sw %d %d" % (i, t))
+    deferring = [(i, a.name) for i in range(n) for a in cls[objs[i]].attrs if a.kind in ("P", "D")]
+    protos = [(i, a.name) for i in range(n) for a in cls[objs[i]].attrs if a.kind == "P"] or deferring
+    o, a = rng.choice(protos if rng.random() < 0.85 else deferring)
+    if rng.random() < 0.3:                                      # sometimes from the unlinked state
+        ops.append("st %d %s %d" % (o, a, rng.choice([1, 5, 8])))
+        if rng.random() < 0.6:
+            ops.append("dl %d %s" % (o, a))
+    kind = rng.choice(["rejneg", "range", "range", "failat"]) if shape not in CMP_SHAPES else "rejneg"
+    if kind == "failat":
+        vals = ["failat:%d:%s" % (len(ops), rng.choice(["TraitError", "ValueError", "RuntimeError"]))] * 2
+        ops.append("st %d %s %d" % (o, a, rng.choice([0, 2, 6, 9])))
+    else:
+        vals = ["rejneg", "rejneg"] if kind == "rejneg" else ["range:0:9", "range:0:9"]
+        ops.append("st %d %s %d" % (o, a, rng.choice([-1, -2, -5] if kind == "rejneg" else [-1, 11, 12, -5])))
+    typed = [(j, b.name) for j in range(n) for b in cls[objs[j]].attrs if b.kind == "T"]
+    rng.shuffle(typed)
+    for (j, b) in typed[:6]:
+        ops.append("st %d %s %d" % (j, b, rng.choice([0, 1, 2, 4, 5, 6, 8, 9])))
+    for _ in range(rng.randint(0, 4)):
+        r = rng.random()
+        j = rng.randrange(n)
+        nm = [b.name for b in cls[objs[j]].attrs]
+        if r < 0.4:
+            ops.append("st %d %s %d" % (j, rng.choice(nm), rng.choice([0, 3, 7, 9, -1, 12])))
+        elif r < 0.6:
+            ops.append("dl %d %s" % (j, rng.choice(nm)))
+        else:
+            ops.append("rd %d %s" % (j, rng.choice(nm)))
     return "dg|%s|%s|%s|%s" % (classes, objects, ",".join(vals), ";".join(ops))
 
 
